@@ -187,6 +187,28 @@ def constrained_cases():
                  (t0 + '800000', False), (t0 + '800201050000', True), (t0 + '80020105040261620000', False)]
         out.append(('%s { id INTEGER OPTIONAL, name OCTET STRING OPTIONAL } (WITH COMPONENTS { id PRESENT, name ABSENT })' % cls.__name__.upper(),
                     wc, items))
+        # a presence constraint on a member that is not the first one, met after a gap (an earlier OPTIONAL member absent)
+        gap = cls(componentType=namedtype.NamedTypes(namedtype.OptionalNamedType('serial', univ.Integer()),
+                                                     namedtype.OptionalNamedType('issuer', univ.OctetString()),
+                                                     namedtype.OptionalNamedType('ext', univ.Boolean())),
+                  subtypeSpec=constraint.WithComponentsConstraint(('ext', constraint.ComponentAbsentConstraint())))
+        s_, i_, e_ = '020105', '04026162', '0101ff'
+
+        def rec(*parts):
+            body = ''.join(parts)
+            return t0 + '%02x' % (len(body) // 2) + body
+        out.append(('%s { serial INTEGER OPTIONAL, issuer OCTET STRING OPTIONAL, ext BOOLEAN OPTIONAL } (WITH COMPONENTS { ..., ext ABSENT })'
+                    % cls.__name__.upper(), gap,
+                    [(rec(), True), (rec(s_), True), (rec(s_, i_), True), (rec(i_), True), (rec(e_), False), (rec(s_, e_), False),
+                     (rec(i_, e_), False), (rec(s_, i_, e_), False), (t0 + '80' + e_ + '0000', False), (t0 + '80' + s_ + e_ + '0000', False),
+                     (t0 + '80' + i_ + '0000', True)]))
+        need = cls(componentType=namedtype.NamedTypes(namedtype.OptionalNamedType('serial', univ.Integer()),
+                                                      namedtype.OptionalNamedType('issuer', univ.OctetString()),
+                                                      namedtype.OptionalNamedType('ext', univ.Boolean())),
+                   subtypeSpec=constraint.WithComponentsConstraint(('ext', constraint.ComponentPresentConstraint())))
+        out.append(('the same with ext PRESENT', need,
+                    [(rec(), False), (rec(s_), False), (rec(e_), True), (rec(s_, e_), True), (rec(i_, e_), True), (rec(s_, i_, e_), True),
+                     (rec(s_, i_), False)]))
         if cls is univ.Sequence:
             out.append(('SEQUENCE OF that SEQUENCE', univ.SequenceOf(componentType=wc),
                         [('3000', True), ('30023000', False), ('30053003020105', True), ('30803080000000 00'.replace(' ', ''), False),
